@@ -47,6 +47,7 @@ class RowHistory:
     def reset_locals(self):
         """Reset the minimum count that counts as "local" """
         self.local_counters = deepcopy(self.table_counters)
+        self.local_nickname_counters = dict(self.nickname_counters)
 
     def save_row(self, tablename: str, nickname: T.Optional[str], row: dict):
         """Save a row to temporary storage"""
@@ -60,8 +61,9 @@ class RowHistory:
         )
 
         if nickname:
+            # nickname ordinals have their own counters: a nickname may be
+            # spelled like another table's name
             nickname_id = self._get_nickname_id(tablename, nickname)
-            self.table_counters[nickname] = nickname_id
         else:
             nickname_id = None
 
@@ -107,7 +109,7 @@ class RowHistory:
                 self.already_warned = True
             min_id = 1
         elif nickname:
-            min_id = self.local_counters.get(nickname, 0) + 1
+            min_id = self.local_nickname_counters.get(nickname, 0) + 1
         else:
             min_id = self.local_counters.get(tablename, 0) + 1
         # if no records can be found in this iteration
